@@ -21,7 +21,12 @@ BaseOuts(ins, iss) ==
     : alt \in { << O("A", a - 1) >>, << O("A", 1), O("A", a - 2) >> }, extra \in { << >>, << Burn("A") >> } }
 Perms(s) == { [k \in DOMAIN s |-> s[p[k]]] : p \in Permutations(DOMAIN s) }
 Rotations(s) == { [k \in DOMAIN s |-> s[((k + r - 1) % Len(s)) + 1]] : r \in 0..(Len(s) - 1) }
-Arrangements(s) == IF Tier = "quick" THEN Rotations(s) ELSE Perms(s)
+\* thorough: the rotations of the base order and of its reversal, and the base order with each adjacent pair exchanged (all
+\* permutations of up to seven outputs times all factor choices is out of reach: 5040 orders x 25^k)
+Rev(s) == [k \in DOMAIN s |-> s[Len(s) + 1 - k]]
+SwapAdj(s, i) == [k \in DOMAIN s |-> IF k = i THEN s[i + 1] ELSE IF k = i + 1 THEN s[i] ELSE s[k]]
+Arrangements(s) == IF Tier = "quick" THEN Rotations(s)
+                   ELSE Rotations(s) \cup Rotations(Rev(s)) \cup { SwapAdj(s, i) : i \in 1..(Len(s) - 1) }
 MarkSets(s) == { m \in SUBSET { k \in DOMAIN s : ~s[k].fee /\ s[k].v > 0 } : m # {} }
 Mark(s, m) == [k \in DOMAIN s |-> IF k \in m THEN [s[k] EXCEPT !.marked = TRUE] ELSE s[k]]
 Build(InsS, IssS) ==
@@ -35,13 +40,13 @@ SmallIns == { << I("A", 3, "full", 2, 1) >>, << I("A", 3, "expl", 0, 0) >> }
 HalfIns == { << I("A", 3, "value", 0, 3) >>, << I("A", 3, "asset", 4, 0) >>, << I("A", 2, "value", 0, 2), I("A", 2, "full", 1, 1) >> }
 \* Transaction::blind: every marked output fully blinded.  The plain issuance shapes go with every input set; the token /
 \* blinded-issuance shapes with the single-input sets (quick: at most two marked outputs)
-SkFull == Build(InsSets, PlainIss) \cup { sk \in Build(HalfIns, { NoIss }) : Tier # "quick" \/ NMarked(sk) <= 2 }
-          \cup { sk \in Build(SmallIns, IssSet \ PlainIss) : Tier # "quick" \/ NMarked(sk) <= 2 }
+SkFull == Build(InsSets, PlainIss) \cup { sk \in Build(HalfIns, { NoIss }) : NMarked(sk) <= (IF Tier = "quick" THEN 2 ELSE 3) }
+          \cup { sk \in Build(SmallIns, IssSet \ PlainIss) : NMarked(sk) <= (IF Tier = "quick" THEN 2 ELSE 3) }
 \* hand-blinded: exactly one marked output in a partial mode (the last marked one must commit its value)
 MaxOf(m) == CHOOSE k \in m : \A j \in m : j <= k
 PartialOf(sk) == { [sk EXCEPT !.outs[k].want = w, !.manual = TRUE]
                    : k \in { j \in DOMAIN sk.outs : sk.outs[j].marked }, w \in {"value", "asset"} }
 WantOk(sk) == LET m == { j \in DOMAIN sk.outs : sk.outs[j].marked } IN sk.outs[MaxOf(m)].want # "asset"
-SkPartial == { p \in UNION { PartialOf(sk) : sk \in { s \in Build(SmallIns, { NoIss, Iss(2, FALSE, 0, 1, FALSE, 0) }) : Tier # "quick" \/ NMarked(s) <= 2 } } : WantOk(p) }
+SkPartial == { p \in UNION { PartialOf(sk) : sk \in { s \in Build(SmallIns, { NoIss, Iss(2, FALSE, 0, 1, FALSE, 0) }) : NMarked(s) <= (IF Tier = "quick" THEN 2 ELSE 3) } } : WantOk(p) }
 Sk == SkFull \cup SkPartial
 =============================================================================
